@@ -22,6 +22,12 @@ def pick_cases(ctx):
             root = entry[2] if len(entry) > 2 else "Query"
             ws, _, _ = c26.worlds_for(ctx, types, ids, doc, root, 0, per_doc)
             chosen = [ws[0]] + ctx.rng.sample(ws[1:], min(per_doc, len(ws) - 1))
+            # always: every world in which exactly one site answers null or an error (the completion of a null in a
+            # non-null position and error propagation are where a sync/async split of the code could differ)
+            for w in ws[1:]:
+                diff = [b for (_, _, b), (_, _, b0) in zip(w, ws[0]) if b != b0]
+                if len(diff) == 1 and diff[0] in (("leaf", "null"), "err") and w not in chosen:
+                    chosen.append(w)
             for v in varss[:2]:
                 for w in chosen:
                     out.append((schema, doc, v, w))
